@@ -303,7 +303,7 @@ func (ci *ConstructorInvoker) InvokeFunc(
 	// Check for error return
 	if info.HasErrorReturn && len(results) > 0 {
 		lastResult := results[len(results)-1]
-		if !lastResult.IsNil() {
+		if isErrorValue(lastResult) {
 			if err, ok := lastResult.Interface().(error); ok {
 				return nil, fmt.Errorf("constructor error: %w", err)
 			}
@@ -311,6 +311,19 @@ func (ci *ConstructorInvoker) InvokeFunc(
 	}
 
 	return results, nil
+}
+
+// isErrorValue reports whether the trailing error result of a constructor holds
+// an error. The result may be declared with any type that implements error: for
+// kinds that can be nil it is an error when it is not nil, for other kinds (a
+// struct implementing error) when it is not the zero value.
+func isErrorValue(v reflect.Value) bool {
+	switch v.Kind() {
+	case reflect.Chan, reflect.Func, reflect.Interface, reflect.Map, reflect.Pointer, reflect.Slice:
+		return !v.IsNil()
+	default:
+		return !v.IsZero()
+	}
 }
 
 // invokeWithRecovery calls the constructor and recovers from any panics.
